@@ -421,9 +421,11 @@ def unconfigureGen (cfg : Cfg) (st : St) (impl : String) : St :=
 /-- what `build()` and the warnings plugin guarantee around the hooks: `pytask_unconfigure` is called unconditionally once
 configuration succeeded, `catch_warnings_for_item` runs the task inside `warnings.catch_warnings()`, and
 `warnings.pytask_post_parse` only registers the plugin unless `disable_warnings` (it never touches the process-wide
-`warnings.filters`: the model's `step (.postParse "warnings")` is the identity) -/
+`warnings.filters`: the model's `step (.postParse "warnings")` is the identity), `build.pytask_post_parse` — called after
+capturing has started — cannot raise (`with suppress(Exception)`) -/
 def frameFactsOk : Bool :=
-  warningsIsolated && warningsPostParseRegistersOnly && buildUnconfigureUnconditional && Generated.unconfigureAfterLadder
+  warningsIsolated && warningsPostParseRegistersOnly && buildPostParseTolerant && buildUnconfigureUnconditional &&
+  Generated.unconfigureAfterLadder
 
 /-! ### from `task.report_sections` to `report.sections` (reports.py) -/
 
